@@ -1,11 +1,12 @@
 """C17 -- assembly paths, worker schedules and the disk cache are
 transparent."""
-from sim import sessions
+from sim import drivertrace, sessions
 
 PROPERTY = 'C17'
 LEVEL = 'fault_enumeration'
 ENGINE = 'L1-sessions'
 COMPONENTS_REAL = [
+    'example.py unmodified as a killable forked process (L2 share of runs)',
     'src/single_layer.py: SingleLayerOperator.bilform_matrix, bilform, '
     'MP_SL_matrix_col (unmodified)',
     'src/initial_potential.py: InitialOperator.linform_vector, linform, '
@@ -47,27 +48,42 @@ RULE = ('seeded sessions on all five curves sharing 1-2 simulated cache '
         '1..16 workers and a seeded schedule; faults: torn/lost/failing '
         'save, failing load, fork EAGAIN, crash at a seam event with a torn '
         'class, delete/truncate/garble between ops, restart; non-trivial = '
-        'run contains >= 1 assembly op; distinct = distinct explicit op list')
+        'run contains >= 1 assembly op; distinct = distinct explicit op list; '
+        'a seeded share of the runs (p_l2) is system level: the unmodified '
+        'driver, reference trace at numpy.linalg.solve vs the trace after '
+        'crashes with torn SL_/M0_ files, restarts and other worker counts')
 TIERS = {
-    'quick': {'runs': 2400, 'budget_s': 170, 'max_ops': 9, 'wall_cap': 600},
-    'thorough': {'runs': 60000, 'budget_s': 2400, 'max_ops': 12,
+    'quick': {'runs': 2400, 'budget_s': 170, 'max_ops': 9, 'wall_cap': 600,
+              'p_l2': 0.012},
+    'thorough': {'runs': 60000, 'budget_s': 2400, 'max_ops': 12, 'p_l2': 0.03,
                  'wall_cap': 900},
 }
 
 
 def generate(seed, cfg):
+    from sim.core import stream
+    rng = stream(seed, 'layer')
+    if rng.random() < cfg.get('p_l2', 0.0):
+        return drivertrace.gen(stream(seed, 'workload'), cfg)
     return sessions.gen_run(seed, cfg)
 
 
 def execute(run, cov, log):
-    sessions.execute(run, cov, log)
+    if run.get('layer') == 'L2':
+        drivertrace.execute(run, cov, log)
+    else:
+        sessions.execute(run, cov, log)
 
 
 def shrink(run):
+    if run.get('layer') == 'L2':
+        return drivertrace.shrink(run)
     return sessions.shrink_run(run)
 
 
 def sample_of(run):
+    if run.get('layer') == 'L2':
+        return run
     return {'dirs': run['dirs'], 'ops': run['ops'][:8],
             'n_ops': len(run['ops'])}
 
